@@ -146,6 +146,7 @@ def failing_slot(fk, i, ignore):
 
 
 NFAIL = 11
+TRUTH_LITS = [('list', 0), ('list', 2), ('map', 0), ('map', 1), ('num', 0), ('num', 3), ('bool', False), ('bool', True), ('str', 'x')]
 
 
 def c01(run, replay=None):
@@ -167,6 +168,18 @@ def c01(run, replay=None):
                     ts[pos] = failing_slot(fk, pos, ign)
                     cases.append(dict(files=dict(files, **{"main.rh": dict(tasks=ts)}),
                                       desc=dict(skeleton=kinds, failure=dict(position=pos, kind=fk, ignore_errors=ign))))
+    # which values make `when` / `assert` true: every kind of value a variable can hold (empty and non-empty list and
+    # mapping, none, 0 and non-zero, booleans, empty and non-empty string), each as a bare `when: v`, negated, and asserted
+    for li, L in enumerate(TRUTH_LITS):
+        pre = [INIT, task(('setlit', 'v', L))]
+        cases.append(dict(files={"main.rh": dict(tasks=pre + [task(('command', 'kw%d' % li, '', 0), when=('var', ['v'])), task(('debug', lit(S(9))))])},
+                          desc=dict(truthiness="when", literal=L)))
+        cases.append(dict(files={"main.rh": dict(tasks=pre + [task(('command', 'kn%d' % li, '', 0), when=('not', ('var', ['v']))), task(('debug', lit(S(9))))])},
+                          desc=dict(truthiness="when not", literal=L)))
+        cases.append(dict(files={"main.rh": dict(tasks=pre + [task(('assert', [('var', ['v'])])), task(('command', 'ka%d' % li, '', 0))])},
+                          desc=dict(truthiness="assert", literal=L)))
+        cases.append(dict(files={"main.rh": dict(tasks=pre + [task(('debug', lit("<<it>>")), loop=[lit('x'), lit('y')], when=('var', ['v']))])},
+                          desc=dict(truthiness="when in loop", literal=L)))
     j = judge(run, cases, "order/once/stop")
     finish_cov(run, j,
                "random skeletons of 2-5 tasks over debug / looped debug / when / set_vars / command+register / copy / assert / include / vars / changed_when, "
@@ -247,6 +260,18 @@ def c02(run, replay=None):
     # writes inside an included file (K4), item after a loop (K2), task vars in assert (K3)
     incw = dict(tasks=[task(('setvars', [('a', lit('fromInclude'))])), reads(90)])
     cases.append(dict(files={"main.rh": dict(tasks=[INIT, task(('include', 'incw.rh')), reads(1)]), "incw.rh": incw}, desc=dict(history="include-writes")))
+    # an include task that carries task vars (plain, looped, skipped, ignored-failing): neither the included file's
+    # tasks nor the tasks after the include may see them as persistent variables
+    incr = dict(tasks=[reads(91)])
+    incfail = dict(tasks=[reads(92), task(('assert', [('eq', ('var', ['a']), ('str', 'nope'))]))])
+    for hi, deco in enumerate([dict(), dict(loop=[lit('p'), lit('q')]), dict(when=('bool', False)), dict(ignore=True, file='incfail.rh'),
+                               dict(loop=[lit('p')], register='rg'), dict(when=('eq', ('var', ['z']), ('str', 'Zi')))]):
+        inc = task(('include', deco.get('file', 'incr.rh')), vars=[('a', lit('Ti')), ('z', lit('Zi'))])
+        for k2 in ('loop', 'when', 'ignore', 'register'):
+            if k2 in deco:
+                inc[k2] = deco[k2]
+        cases.append(dict(files={"main.rh": dict(tasks=[INIT, reads(0), inc, reads(1), task(('setvars', [('b', [('v', ['a'])])])), reads(2)]),
+                                 "incr.rh": incr, "incfail.rh": incfail}, desc=dict(history="include-with-vars-%d" % hi)))
     j = judge(run, cases, "variable visibility")
     # -e overrides and environment inheritance are judged directly on the implementation
     envcases = []
@@ -394,11 +419,13 @@ def c17(run, replay=None):
                 f["invalid"] = (rng.randrange(0, len(ts) + 1), rng.choice(list(E.INVALID_TEXT)))
             elif d > 0 and r < 0.5:
                 ts.insert(1, task(('setvars', [('a', lit('set_in_%d' % d))])))
+            if rng.random() < 0.3:
+                f["symlink"] = True       # identity must be the path the file was asked for, not where the link points
             files[names[d]] = f
         cases.append(dict(files=files, desc=dict(tree=n, depth=depth)))
     j = judge(run, cases, "include semantics")
     finish_cov(run, j,
-               "include chains of depth 1-3 through files in different directories, includes under loop / when / ignore_errors, every file printing rash.path, rash.dir and a caller variable at start and end, "
+               "include chains of depth 1-3 through files in different directories (a third of the files, the main script included, reached through symbolic links), includes under loop / when / ignore_errors, every file printing rash.path, rash.dir and a caller variable at start and end, "
                "with a failing assert, an invalid task or a variable write injected at random positions of the included files; non-trivial = distinct trees with more than one event")
 
 
